@@ -40,7 +40,10 @@ type judged struct {
 	cnt     map[string]int64
 }
 
-const hbHealthyUS = 100_000 // a heartbeat gap beyond this makes a timing observation meaningless
+const (
+	hbHealthyUS  = 100_000 // a heartbeat gap beyond this makes a timing observation meaningless
+	ctlHealthyUS = 50_000  // so does a control sleep (same goroutine, right after the slow call) that overshoots by this much
+)
 
 // model of the level arithmetic, written from the property text.
 type model struct {
@@ -110,9 +113,10 @@ func judge(s caseSpec, lg caseLog) (j judged) {
 		}
 		switch {
 		case e.DurUS <= 3*dUS+100_000:
-		case e.GapUS >= hbHealthyUS || (e.Tries < 3 && e.DurUS <= 3*dUS+10_000_000):
+		case e.GapUS >= hbHealthyUS || e.CtlUS >= ctlHealthyUS || (e.Tries < 3 && e.DurUS <= 3*dUS+10_000_000) || (e.Tries == 3 && e.DurUS <= 3*dUS+1_000_000):
 			// single measurement (concurrent modes): only an absurd duration counts;
-			// sequential mode: all of three attempts must have been slow
+			// sequential mode: all of three attempts must have been slower than
+			// 3x delay + 1 s while ordinary timers of the same goroutine were on time
 			if j.inconcl == "" {
 				j.inconcl = fmt.Sprintf("Delay slower than 3x delay + 100 ms but within the band, or process stalled|%s: Delay took %d us for a delay of %d us (heartbeat gap %d us)", where, e.DurUS, dUS, e.GapUS)
 			}
@@ -125,6 +129,14 @@ func judge(s caseSpec, lg caseLog) (j judged) {
 		maxD = max(maxD, d)
 	}
 	switch s.Mode {
+	case "stale":
+		for k, v := range lg.Stale {
+			j.cnt["stale_"+k] += v
+		}
+		if lg.Stale["signal_wiped"] > 0 {
+			add("idle:stale-timer-wipes-signal", "%d of %d Signal calls aimed at the moment the idle timer (%d ms) was due were wiped: the level was >=1 right after Signal returned and 0 less than half a timeout later, without Release/Reset (first: %v)", lg.Stale["signal_wiped"], lg.Stale["attempts"], s.IdleMS, lg.StaleEx)
+		}
+		j.nontriv = lg.Stale["reset_before_third_signal"] > 0 && lg.Stale["no_reset_yet"] > 0
 	case "seq", "cancel":
 		lvl := 0 // -1: unknown until the next idle wait
 		reachedMax, clamped, sawPositive := false, false, false
@@ -216,7 +228,7 @@ func judge(s caseSpec, lg caseLog) (j judged) {
 				switch {
 				case e.DurUS <= d/2+100_000:
 					j.cnt["cancelled_delays_returned_early"]++
-				case e.GapUS >= hbHealthyUS || e.DurUS < d*9/10 || e.Tries < 3:
+				case e.GapUS >= hbHealthyUS || e.CtlUS >= ctlHealthyUS || e.DurUS < d*9/10 || e.Tries < 3:
 					if j.inconcl == "" {
 						j.inconcl = fmt.Sprintf("cancelled Delay later than delay/2 + 100 ms but before 90%% of the delay, or process stalled|%s: cancelled Delay took %d us (delay %d us, cancel after %d us, gap %d us)", where, e.DurUS, d, e.CanUS, e.GapUS)
 					}
@@ -334,6 +346,9 @@ func sortEvs(e []ev) {
 func genCase(no int, r *rand.Rand) caseSpec {
 	s := caseSpec{No: no, Seed: r.Uint64()}
 	s.Mode = []string{"seq", "seq", "seq", "seq", "seq", "lin", "lin", "lin", "idle", "cancel"}[r.IntN(10)]
+	if r.IntN(40) == 0 {
+		s.Mode = "stale"
+	}
 	n := 1 + r.IntN(8)
 	s.Rate = 1 + r.IntN(5)
 	switch s.Mode {
@@ -376,10 +391,16 @@ func genCase(no int, r *rand.Rand) caseSpec {
 		s.G = 1 + r.IntN(4)
 		s.Ops = 20 + r.IntN(40)
 		s.IdleMS = 30 + r.IntN(71)
+	case "stale":
+		s.DelaysUS = []int64{0, 1, 2, 3, 4, 5}
+		s.Rate = 1
+		s.IdleMS = 4 + r.IntN(5)
+		s.Ops = 200
 	default: // cancel
 		n = 2 + r.IntN(4)
-		s.DelaysUS = []int64{0}
-		for i := 1; i < n; i++ {
+		n = 3 + r.IntN(4)
+		s.DelaysUS = []int64{0, int64(1000 + r.IntN(4000))}
+		for i := 2; i < n; i++ {
 			s.DelaysUS = append(s.DelaysUS, int64(1_000_000+r.IntN(3_000_000)))
 		}
 		s.Ops = 3 * (1 + r.IntN(3))
@@ -388,13 +409,13 @@ func genCase(no int, r *rand.Rand) caseSpec {
 }
 
 func run(c *vf.Ctx) {
-	c.Rule("case = (mode, delay table of 0-8 entries, release rate 1-5, idle timeout 0 / 30-100 ms / 1 h, seeded call sequence) on the real throttler.Throttler in a child process, once in the normal and once in the -race build. seq: one goroutine, 20-80 steps of Signal/Release/Reset/Level/GetDelay/Delay/idle-wait, level observed after every step and replayed against the model; lin: 2-4 goroutines, stamped history checked for linearizability against the model; idle: 1-4 goroutines under a short idle timeout, range checks + level 0 after quiescence and the timeout; cancel: Delay at a 1-4 s level under a context that ends after <=30 ms. non-trivial = seq: a positive level and a saturation (Signal at the top or Release clamped at 0) occurred; lin: calls of different goroutines overlapped; idle: the timer was armed; cancel: a cancelled Delay returned early; distinct by (parameters, build)")
+	c.Rule("case = (mode, delay table of 0-8 entries, release rate 1-5, idle timeout 0 / 30-100 ms / 1 h, seeded call sequence) on the real throttler.Throttler in a child process, once in the normal and once in the -race build. seq: one goroutine, 20-80 steps of Signal/Release/Reset/Level/GetDelay/Delay/idle-wait, level observed after every step and replayed against the model; lin: 2-4 goroutines, stamped history checked for linearizability against the model; idle: 1-4 goroutines under a short idle timeout, range checks + level 0 after quiescence and the timeout; cancel: Delay at a 1-4 s level under a context that ends after <=30 ms; stale (1 case in 40): 200 x (Signal, Signal, spin to the idle timeout +/-100 us, Signal, read the level twice). non-trivial = seq: a positive level and a saturation (Signal at the top or Release clamped at 0) occurred; lin: calls of different goroutines overlapped; idle: the timer was armed; cancel: a cancelled Delay returned early; stale: both orders (reset before / after the aimed Signal) were seen; distinct by (parameters, build)")
 	c.Assume("model from the property text: Signal = min(level+1, len(table)-1); Release = max(level-rate, 0); Reset = 0; idle timeout without Signal/Release = 0; Delay waits table[level]")
-	c.Assume("wall clock is used only with wide margins and repetition: a Delay slower than 3x delay + 100 ms is repeated (3 attempts); held if any attempt is within the bound, violation only if all three are slower with a healthy heartbeat (concurrent modes, single attempt: only > 3x the largest delay + 10 s), else inconclusive; a Delay (delay 1-4 s) whose context ended after <=30 ms must return within delay/2 + 100 ms, a violation only if all of three attempts waited >= 90% of the delay")
+	c.Assume("wall clock is used only with wide margins and repetition: a Delay slower than 3x delay + 100 ms is repeated (3 attempts); held if any attempt is within the bound, violation only if all three are slower than 3x delay + 1 s while the heartbeat is healthy and a control sleep on the same goroutine after each slow attempt was on time (concurrent modes, single attempt: only > 3x the largest delay + 10 s), else inconclusive; a Delay (delay 1-4 s) whose context ended after <=30 ms must return within delay/2 + 100 ms, a violation only if all of three attempts waited >= 90% of the delay (same heartbeat / control-sleep conditions)")
 	c.Assume("idle timeout: every idle wait starts from a positive level (a Signal is inserted if needed) so that seeing 0 proves the timer callback ran; 0 within 3x timeout + 200 ms held, later but within 10 s inconclusive, never within 10 s (heartbeat gap < 1 s) violation; steps taken later than half the idle timeout after the last Signal/Release get no verdict and the timeout is then waited out; a level that drops to 0 earlier than half the timeout after the last Signal/Release is a violation")
 	c.Assume("a heartbeat gap >= 100 ms during a timed Delay makes that observation inconclusive")
 
-	nCases := c.N(500, 12000)
+	nCases := c.N(500, 8000)
 	chunk := c.N(50, 200)
 	par := 4
 	tmp := vf.TempDir("c36")
